@@ -51,8 +51,14 @@ def shl8 (x : UInt8) (s : Int) : Option UInt8 :=
 def shrInt (x s : Int) : Option Int :=
   if s < 0 then none else some (x / (2 ^ s.toNat : Int))
 
-/-- `x & m` on non-negative ints with `m = 2^k - 1` is `x % (m+1)`; general case via Nat.land on naturals. -/
-def andInt (x m : Int) : Int := if x < 0 ∨ m < 0 then 0 else ((x.toNat &&& m.toNat : Nat) : Int)
+/-- `x & y` on ints (two's complement, any sign): `.negSucc a` is `^a`, so `a & ^b = a - (a & b)` and
+`^a & ^b = ^(a | b)`. -/
+def andInt (x y : Int) : Int :=
+  match x, y with
+  | .ofNat a, .ofNat b => ((a &&& b : Nat) : Int)
+  | .ofNat a, .negSucc b => ((a - (a &&& b) : Nat) : Int)
+  | .negSucc a, .ofNat b => ((b - (b &&& a) : Nat) : Int)
+  | .negSucc a, .negSucc b => .negSucc (a ||| b)
 
 /-- `x / y`, `x % y` on ints: Go truncates toward zero; division by zero panics. -/
 def quo (x y : Int) : Option Int := if y = 0 then none else some (Int.tdiv x y)
